@@ -12,12 +12,15 @@ VARIABLES tid, l
 TrLinks == {<<1, "e2", 2, "e1">>, <<2, "e2", 1, "e2">>}
 TrNone  == {}
 TrRamp  == 1..1000
+TrAux(k) == {}
 ASSUME \A t \in 1..NTr : TLCSet(t, 0)
 TInit == /\ tid \in 1..NTr /\ l = 1
          /\ kind = [c \in Comp |-> IF c = 3 THEN "custom" ELSE Traces[tid].const.kind[c]]
          /\ Tin  = [c \in Comp |-> IF c = 3 THEN 1 ELSE Traces[tid].const.Tin[c]]
          /\ T0   = [c \in Comp |-> IF c = 3 THEN 1 ELSE Traces[tid].const.T0[c]]
          /\ T = T0 /\ src = 0
+         /\ aux = [c \in Comp |-> IF c = 3 THEN NoAux ELSE [d |-> Traces[tid].const.aux[c][1], p |-> Traces[tid].const.aux[c][2]]]
+         /\ an = [c \in Comp |-> Zero]
          /\ p = [c \in Comp |-> [d \in MutDim |-> Nominal(c, d)]]
          /\ nd = [c \in Comp |-> Zero]
          /\ act = [n |-> "Init"] /\ err = ""
